@@ -258,6 +258,15 @@ func init() {
 	}
 	intrinsics["github.com/go-ap/activitypub.vpInt"] = func(it *Interp, fr *frame, args []Value) Value {
 		lo, hi := termArg(args[0]), termArg(args[1])
+		if lo.op == OpConst && hi.op == OpConst && hi.S() >= lo.S() && hi.S()-lo.S() < 256 {
+			// a small range is a byte symbol plus an offset, so the byte-domain machinery applies
+			b := it.newByte()
+			d := &it.ps.draws[len(it.ps.draws)-1]
+			d.Kind = "int"
+			d.Off = lo.S()
+			it.assume(fr, mkBin(OpUle, b, mkConst(8, uint64(hi.S()-lo.S()))))
+			return mkBin(OpAdd, mkResize(b, 64, false), mkConst(64, uint64(lo.S())))
+		}
 		ps := it.ps
 		id := ps.nsyms
 		ps.nsyms++
